@@ -38,6 +38,20 @@ REG_FAMILIES = {
 }
 
 
+def reg_family(name):
+    """'&genreg-1.16' -> 'genreg'; None for ordinary captures"""
+    for fam in REG_FAMILIES:
+        if str(name).startswith("&" + fam):
+            return fam
+    return None
+
+
+X86_REGS = sorted(
+    {r for fam in REG_FAMILIES.values() for t in fam.values() for r in t.values()}
+    | {f"r{i}{s}" for i in range(8, 16) for s in ("", "d", "w", "b")}
+)
+
+
 class SpecError(Exception):
     pass
 
@@ -146,13 +160,14 @@ class Spec:
 
     # ---------------------------------------------------------------- captures (C05)
     def capture_operand(self, name, C):
-        base = name[1:].split(".")[0]
-        if base in REG_FAMILIES:
-            suffix = name.split(".")[1].lower() if "." in name else None
-            key = self.env.get("&" + base)
+        fam = reg_family(name)
+        if fam is not None:
+            base, _, suffix = name.partition(".")
+            suffix = suffix.lower() or None
+            key = self.env.get(base)
             if key is None:
                 raise SpecError(f"unbound capture {name}")
-            table = REG_FAMILIES[base].get(key)
+            table = REG_FAMILIES[fam].get(key)
             if table is None:
                 return rx.EMPTY
             if suffix is None:
